@@ -51,8 +51,8 @@ CASE_TIMEOUT = {"quick": 300, "thorough": 900}
 
 FORMS = ["raw", "runner_ds", "raw", "to_ds", "harvester_ds", "raw", "to_df"]
 KINDS = {"raw": ["float", "array:3", "bool", "str", "tuple:2", "list:2x2", "int", "dataset:2", "mixed", "iarray:3", "barray:2", "iarray:2x2"],
-         "runner_ds": ["float", "array:3", "bool", "str", "dataset:2", "int"],
-         "to_ds": ["float", "array:3", "dataset:2", "multi:s,a3"],
+         "runner_ds": ["float", "array:3", "bool", "str", "dataset:2", "int", "multi:s,t"],
+         "to_ds": ["float", "array:3", "dataset:2", "multi:s,a3", "multi:s,t"],
          "harvester_ds": ["float", "array:3", "int"],
          "to_df": ["float", "str", "multi:s,s", "int"]}
 
@@ -112,7 +112,7 @@ def _descr(kind):
         return "y", {"y": "t"}, {"t": [0.1, 0.2, 0.3]}
     if kind == "multi:s,a3":
         return ["y", "z"], {"z": "t"}, {"t": [0.1, 0.2, 0.3]}
-    if kind == "multi:s,s":
+    if kind in ("multi:s,s", "multi:s,t"):        # (multi:s,t: a number and a text label per setting)
         return ["y", "z"], None, None
     return "y", None, None
 
